@@ -106,8 +106,9 @@ namespace c09
         struct R
         {
             size_t n;
+            const char *base;
             igris::deserialize_buffer_storage st;
-            R(const char *p, size_t n) : n(n), st(igris::buffer(p, n)) {}
+            R(const char *p, size_t n) : n(n), base(p), st(igris::buffer(p, n)) {}
         };
         struct RHolder
         {
@@ -125,7 +126,15 @@ namespace c09
             if (all.size() - before != one.size() || memcmp(all.data() + before, one.data(), one.size()) != 0)
                 kit::violate("C09/writers-disagree@serializer", "igris::serialize(obj, storage) appended %zu bytes, igris::serialize(obj) returned %zu bytes for the same value", all.size() - before, one.size());
         }
-        template <class T> static void get(R &r, T &v) { v = igris::deserialize<T>(r.st); }
+        template <class T> static void get(R &r, T &v)
+        {
+            // the one-shot form from a string holding exactly the remaining bytes must agree with the storage form
+            size_t left = (size_t)r.st.avail();
+            std::string rest(r.base + (r.n - left), left);
+            v = igris::deserialize<T>(r.st);
+            T one = igris::deserialize<T>(rest);
+            if (!Ref<T>::eq(v, one)) kit::violate("C09/readers-disagree@serializer", "igris::deserialize<T>(string) and igris::deserialize<T>(storage) decode different values from the same bytes");
+        }
     };
 
     template <class P> Api *make_api2_with();
